@@ -83,10 +83,39 @@ func sh(dir string, extraEnv []string, name string, args ...string) (string, err
 
 var buildMu sync.Mutex
 
+// repoDir is /repo; VERIF_REPO redirects to another checkout (evaluation of
+// seeded changes in scratch worktrees only).
+func repoDir() string {
+	if r := os.Getenv("VERIF_REPO"); r != "" {
+		return r
+	}
+	return "/repo"
+}
+
+// modFlags returns extra go flags: with VERIF_REPO set, an alternative go.mod
+// whose replace directive points at that checkout.
+func modFlags(build string) ([]string, error) {
+	r := os.Getenv("VERIF_REPO")
+	if r == "" {
+		return nil, nil
+	}
+	b, err := os.ReadFile(filepath.Join(root, "go.mod"))
+	if err != nil {
+		return nil, err
+	}
+	alt := filepath.Join(build, "alt-"+sanitize(r)+".mod")
+	if err := os.WriteFile(alt, []byte(strings.Replace(string(b), "=> /repo", "=> "+r, 1)), 0o644); err != nil {
+		return nil, err
+	}
+	sum, _ := os.ReadFile(filepath.Join(root, "go.sum"))
+	os.WriteFile(strings.TrimSuffix(alt, ".mod")+".sum", sum, 0o644)
+	return []string{"-modfile=" + alt}, nil
+}
+
 // buildRepoBin builds a main package of /repo into /verif/.build.  The build
 // runs inside /repo with -mod=readonly so that go.sum there is never touched.
 func buildRepoBin(pkg, out string) error {
-	o, err := sh("/repo", []string{"GOFLAGS=-mod=readonly"}, "go", "build", "-o", out, pkg)
+	o, err := sh(repoDir(), []string{"GOFLAGS=-mod=readonly"}, "go", "build", "-o", out, pkg)
 	if err != nil {
 		return fmt.Errorf("go build %s: %v\n%s", pkg, err, o)
 	}
@@ -126,6 +155,9 @@ func runCheck(c check, tier string) int {
 	}
 	seed %= 1 << 40
 	build := filepath.Join(root, ".build")
+	if r := os.Getenv("VERIF_REPO"); r != "" {
+		build = filepath.Join(root, ".build", "alt-"+sanitize(r))
+	}
 	os.MkdirAll(build, 0o755)
 	work, err := os.MkdirTemp("", "vrun-"+c.ID+"-")
 	if err != nil {
@@ -154,6 +186,12 @@ func runCheck(c check, tier string) int {
 	// the test binary
 	testBin := filepath.Join(build, c.ID+".test")
 	args := []string{"test", "-c", "-vet=off", "-o", testBin}
+	mf, err := modFlags(build)
+	if err != nil {
+		fmt.Fprintln(os.Stderr, "harness:", err)
+		return 2
+	}
+	args = append(args, mf...)
 	if c.Tags != "" {
 		args = append(args, "-tags", c.Tags)
 	}
